@@ -96,7 +96,8 @@ CLAIMED = {
         "scores permute with cells and, for the binary kernel, are the quadratic form (2/n)u'Lu hence non-negative under a PSD hypothesis on L. Tied to /repo by "
         "correspondence on estimator classes, samplers/designs and explainers end to end (recorded outputs, explainer.masks, staged bicubic resize).",
    note="Trusted: Coq kernel + vm_compute; hand-written model; sqrt, exp, np.percentile, cv2.blur, QMC/LHS draws and the bicubic resize are inputs / tables re-checked in Coq; "
-        "PSD-ness of the RBF Gram matrix is a hypothesis; non-negativity proved for the binary kernel only; convergence to analytic indices is statistical (support only).",
+        "PSD-ness of the RBF Gram matrix is a hypothesis; non-negativity proved for the binary kernel only; convergence to analytic indices is statistical (support only). "
+        "Janon / Homma / Saltelli / Glen normalisation defects refuted on the _orig transcriptions and fixed in /repo; all five estimators proved exactly 0 on inert dimensions.",
    design="5 (C08)", technique="Coq proofs over Qc (list/batch induction, ring/field, qc2q+nra, finite-sum algebra for HSIC) + differential correspondence (vm_compute) on recorded designs and outputs"),
  "C03": dict(
    text="Batch-invariance corollaries of the machine-checked Model = Spec theorems of the individual methods (every batch size or None), re-stated in one place, plus the "
@@ -115,6 +116,41 @@ CLAIMED = {
    note="dtype, finiteness and the shapes of the 11 methods without a value model are OBSERVED on the implementation (not expressible over exact rationals / not modelled); "
         "sampling methods run eagerly under a fixed seed; a batched dataset hidden behind prefetch/map is a recorded known finding (C12-prefetch).",
    design="5 (C12)", technique="Coq proofs (concat-of-chunks round trip, shape corollaries of the per-method Model=Spec theorems) + observation of the implementation across containers"),
+ "C11": dict(
+   text="Machine-checked proofs about executable models of TorchWrapper (np.moveaxis as literal index arithmetic: explicit positions, round trip, adjointness; for every "
+        "module the wrapper's outputs and input gradients equal the module evaluated natively sample by sample; F-quad in NCHW equals the NHWC member with moved parameters; "
+        "the constructor's channel-first rule) and of predictions_one_hot_callable with operator_batching (scored like a Keras model for 2-D, 1-D and squeezed predictions, "
+        "every batch size, tensor and array inputs). Tied to /repo by four streams: torch modules (dense, explicit F-quad in both layouts, real Conv2d nets, H!=W, C in "
+        "{1,2,3,4}) through six gradient methods against the Coq model and against native torch.autograd; constructor rule on random module trees; callable / predict_proba "
+        "shapes x batch sizes; one function under up to 7 wrappings through 6 black-box methods and 3 metrics with seeded draws. One defect refuted, reproduced and fixed: "
+        "metrics on callables with batch_size=None raised AttributeError.",
+   note="Trusted: Coq kernel and vm_compute; hand-written models; torch.autograd and TF custom_gradient plumbing (validated against the closed-form F-quad gradient); float32 "
+        "exactness on dyadic inputs, 1e-5 relative tolerance for the three gradient statistics and for Rise / Sobol / HSIC; convolutions enter only as extracted F-quad or "
+        "native reference; TorchWrapper is exercised in eager mode only (it cannot run otherwise); the dispatch table is C02's; TfLite branch not exercised.",
+   design="5 (C11)", technique="Coq proofs (ravel/unravel induction, sum re-indexing through Permutation, nthq_ext) + differential correspondence, exact and against a native torch reference"),
+ "C15": dict(
+   text="28 machine-checked theorems on the executable model of MuFidelity.evaluate/_perturb_samples and AverageStability.evaluate: model = spec for every batch size "
+        "(exactly nb_samples perturbations per sample; the drop and the summed attribution of the same subset are paired), rank invariances (positive scaling, increasing maps, "
+        "negation), Cauchy-Schwarz bound hence [-1,1], +1 / -1 / 0 on additive exact / negated / constant-score cases, stability non-negativity, 0 for input-ignoring "
+        "explainers and neighbour count. Correlations are specified root-free; tied to /repo by correspondence on recorded masks and neighbours plus a SciPy rank/spearman stream.",
+   note="Trusted: Coq kernel + vm_compute; hand-written model; row-wise score / explainer / baseline function; scipy.stats.spearmanr modelled as average ranks + Pearson (validated "
+        "by a dedicated stream, not proved); sqrt inside Coq via Z.sqrt to 1e-9 (proved >= 0, sqrt 0 = 0); invariance under reordering the pairs of one sample is a harness assumption.",
+   design="5 (C15)", technique="Coq Qc models, induction over the while-loop with fuel, Lagrange-identity Cauchy-Schwarz, relational correlation + correspondence with recorded random draws"),
+ "C16": dict(
+   text="Machine-checked proof that the executable model of KNN.kneighbors inside SimilarExamples (harmonised batch size, batch-wise projection, running top-k: k fills of "
+        "(+inf,(-1,-1)), per batch concat / argsort / keep k, dataset_gather) returns, for every batch size, k, N, distance, projection and every tie-breaking argsort, exactly "
+        "the k smallest true distances in the projected space, sorted, each with a valid (batch, position) index of a distinct original case and its label, and that no "
+        "unreturned case is closer; tied to /repo by a tie-tolerant correspondence over containers, distances, projections and case_returns.",
+   note="Trusted: Coq kernel + vm_compute; hand-written model; tf.argsort is a sorting permutation; root-free comparison of euclidean / Minkowski (1e-5 rel.), cosine only on "
+        "rational-norm data; Hadamard / Attribution projections, DataLoader containers (crash in torch conversion, outside the property's container list), ORDER.DESCENDING not exercised.",
+   design="5 (C16)", technique="Coq proofs (mathcomp sort / perm_eq uniqueness + top-k merge lemma bridged to stdlib Permutation / Sorted; induction over batches; div / mod index arithmetic) + differential correspondence"),
+ "C17": dict(
+   text="Machine-checked proofs on the executable models of FilterKNN (masked distances +inf) and KLEOR (NUN search, ranking by distance to the NUN, strict Global-Sim filter): "
+        "every finite-distance result satisfies its class constraint with true distances, admissible cases not returned are no closer, exactly min(k, #admissible) slots are "
+        "finite, the NUN is a nearest unlike neighbour, strictness of Global-Sim; for all batch sizes / k / tie-breakings. Tied to /repo by tie-tolerant correspondence over "
+        "label assignments (empty / tiny classes), all four methods and all outputs.",
+   note="Trusted: as C16, plus tf.argmax is the first maximiser; the distance to the +inf NUN placeholder is modelled as +inf (false for cosine: known finding C17-kleor-cosine-nan).",
+   design="5 (C17)", technique="Coq proofs (running top-k with admissibility masks, reuse of the C16 merge/uniqueness lemmas) + differential correspondence"),
 }
 PENDING_REASON = "check not built yet in this session (work in progress; planned in DESIGN.md section 5)"
 
